@@ -1254,7 +1254,7 @@ fn compile_block_exprs(
             pat:
                 Pat::PVar {
                     name,
-                    ty: pat_ty,
+                    ty: _,
                     astptr: _,
                 },
             value,
@@ -1262,11 +1262,12 @@ fn compile_block_exprs(
         } => {
             let core_value = compile_expr(value, genv, gensym, diagnostics);
             let core_body = compile_block_exprs(genv, gensym, diagnostics, rest, ty);
+            // the type of a `let … in body` is the type of its body (`ty` is the block's type)
             core::Expr::ELet {
                 name: name.clone(),
                 value: Box::new(core_value),
                 body: Box::new(core_body),
-                ty: pat_ty.clone(),
+                ty: ty.clone(),
             }
         }
         ELet { pat, value, ty: _ } => {
@@ -1323,7 +1324,7 @@ fn compile_block_exprs(
                 name: x,
                 value: Box::new(core_value),
                 body: Box::new(core_body),
-                ty: first.get_ty(),
+                ty: ty.clone(),
             }
         }
     }
